@@ -3,7 +3,7 @@ import ast
 
 from ..core import AnalysisError, dotted, call_name, src, walk_local, const_value
 from ..flow import edge_facts, linear, Lin, leaves
-from ..rules import flow_of, calls_in, bind_args, canon, facts_at, cmp_norm, alts_deep
+from ..rules import flow_of, calls_in, bind_args, canon, facts_at, cmp_norm, alts_deep, specialise, path_feasible
 from ..nullflow import Spec, analyse, _use_kind
 from ..shapes import Shapes
 from .c04 import densified_in_station_order
@@ -127,74 +127,103 @@ def rule_utils(ck):
     env = {rates: ("N", "T"), f"{infra}.constraint_matrix": ("C", "N"), f"{infra}.phases": ("N",), f"{infra}.constraint_limits": ("C",),
            f"{infra}.voltages": ("N",), vt: (), rt: (), f"__elem__({infra}.constraint_matrix)": ("N",), f"__idx__({infra}.constraint_matrix)": ()}
     sh = Shapes(env)
-    falses = [n for n in cfg.nodes if n.kind == "return" and isinstance(n.expr, ast.Constant) and n.expr.value is False]
-    trues = [n for n in cfg.nodes if n.kind == "return" and isinstance(n.expr, ast.Constant) and n.expr.value is True]
-    others = [n for n in cfg.nodes if n.kind == "return" and n not in falses and n not in trues]
-    if others:
-        raise AnalysisError(f"infrastructure_constraints_feasible: return form not recognised: {src(others[0].stmt)}")
-    ck.floor("C06.R5", len(falses), 2, "rejecting returns of the algorithm-side checker")
-    branches = set()
+
+    def truth_const(e):
+        return isinstance(e, ast.Constant) and isinstance(e.value, bool)
+    rets = [n for n in cfg.nodes if n.kind == "return"]
+    falses, trues = [], []
+    for r in rets:
+        if truth_const(r.expr):
+            (trues if r.expr.value else falses).append(r)
+        else:
+            raise AnalysisError(f"infrastructure_constraints_feasible: return form not recognised: {src(r.stmt)}")
+    ck.floor("C06.R5", len(falses), 1, "rejecting returns of the algorithm-side checker")
+    modes_seen = set()
     for r in falses:
-        facts = facts_at(fl, r)
-        lin_branch = None
         cmp_atom = None
-        for a, t in facts:
-            if dotted(a) == lin_p:
-                lin_branch = t
-            if isinstance(a, ast.Call) and call_name(a) == "all" and not t:
-                cmp_atom = a
-        if cmp_atom is None or lin_branch is None:
-            ck.violation("C06.R5", f, r.stmt, "a `return False` that is not the failed-comparison edge of np.all(<currents> <= <limit + tol>) "
-                         "inside one of the two mode branches: the check rejects without a violated constraint", sink="utils:reject-edge")
+        for a, t in facts_at(fl, r):
+            ax = a
+            if isinstance(ax, ast.Call) and call_name(ax) == "all" and not t:
+                cmp_atom, neg = ax, False
+            if isinstance(ax, ast.Call) and call_name(ax) == "any" and t and ax.args:
+                # np.any(np.logical_not(x <= y)) / np.any(~(x <= y)) / np.any(x > y)
+                cmp_atom, neg = ax, True
+        if cmp_atom is None:
+            ck.violation("C06.R5", f, r.stmt, "a `return False` that is not the failed-comparison edge of np.all(<currents> <= <limit + tol>): the check "
+                         "rejects without a violated constraint", sink="utils:reject-edge")
             continue
-        branches.add(lin_branch)
-        side = f"utils:{'linear' if lin_branch else 'phasor'}"
         loops = [t for t, lab in cfg.edges_dominating(r) if t.kind == "for" and lab is True]
         it_ok = len(loops) == 1 and canon(fl.expand(loops[0].stmt.iter, loops[0])) in (f"enumerate({infra}.constraint_matrix)",)
         ck.require(it_ok, "C06.R5", f, loops[0].stmt.iter if loops else r.stmt, ok="one iteration per constraint row, all rows",
-                   bad="the per-constraint loop does not enumerate every row of the constraint matrix", sink=f"{side}:rows")
-        inner = fl.expand(cmp_atom.args[0], r) if cmp_atom.args else None
-        c = cmp_norm(inner) if inner is not None else None
-        if c is None or c[1] not in ("<=", "<"):
-            raise AnalysisError(f"infrastructure_constraints_feasible: comparison not recognised: {src(cmp_atom)}")
-        x, op, bound = c
-        bound_is_rhs = mentions_any(bound, ("constraint_limits",)) and not mentions_any(x, ("constraint_limits",))
-        ck.require(op == "<=" and bound_is_rhs, "C06.R1", f, cmp_atom, ok="currents <= limit + tolerance (non-strict)",
-                   bad=f"the comparison must be non-strict with the bound on the greater side; got `{src(inner, 80)}`", sink=f"{side}:comparison")
-        check_tolerance(ck, f, bound, side, ("constraint_limits",), (vt,), (rt,))
-        # index pairing: limit index is the row counter
-        idx_ok = all(canon(s.slice) == f"__idx__({infra}.constraint_matrix)" for s in ast.walk(bound) if isinstance(s, ast.Subscript)
-                     and dotted(s.value) and dotted(s.value).endswith("constraint_limits"))
-        ck.require(idx_ok, "C06.R5", f, bound, ok="row j is compared with limit j", bad="the limit is not indexed by the row counter of the loop", sink=f"{side}:row-index")
-        s = sh.of(x)
-        ck.count("shape inferences", 1)
-        ck.require(s == ("T",), "C06.R5", f, x, ok="the compared currents keep the period axis: every period is checked separately",
-                   bad=f"the compared quantity has shape {s} instead of one value per period (T): a reduction collapses the time axis, so "
-                       f"feasibility of a multi-period schedule is not decided per period (disagrees with the network-side check)",
-                   sink=f"{side}:per-period")
-        if lin_branch:
-            check_linear_abs(ck, f, x, cmp_atom, "utils")
-        else:
-            has = {nm: any(isinstance(q, ast.Call) and call_name(q) == nm for q in ast.walk(x)) for nm in ("cos", "sin", "norm", "deg2rad")}
-            ck.require(has["deg2rad"], "C06.R3", f, x, ok="phases converted with deg2rad", bad="the algorithm-side check uses the phase angles without deg2rad",
-                       sink="utils:deg2rad")
-            for q in ast.walk(x):
-                if isinstance(q, ast.Call) and call_name(q) == "deg2rad":
-                    ck.require(bool(q.args) and canon(q.args[0]) == f"{infra}.phases", "C06.R3", f, q, ok="of the per-station phase vector",
-                               bad="deg2rad is not applied to infrastructure.phases", sink="utils:deg2rad-arg")
-            ck.require(has["cos"] and has["sin"] and has["norm"], "C06.R3", f, x, ok="real and imaginary parts, then a norm",
-                       bad=f"the phasor magnitude needs cos, sin and a norm; present: {has}", sink="utils:cos-sin-norm")
-            ps = products(x)
-            ck.require(bool(ps), "C06.R3", f, x, ok="coefficient x schedule product", bad="no product of coefficients and schedule", sink="utils:phasor:product")
-    ck.require(branches == {True, False}, "C06.R5", f, "both modes", ok="both the phase-aware and the linear mode reject on a violated constraint",
-               bad=f"modes with a rejecting path: {sorted(branches)}", sink="utils:both-modes")
+                   bad="the per-constraint loop does not enumerate every row of the constraint matrix", sink="utils:rows")
+        fl.gated = True
+        try:
+            inner0 = fl.expand(cmp_atom.args[0], r) if cmp_atom.args else None
+        finally:
+            fl.gated = False
+        if inner0 is not None and neg:
+            x0 = inner0
+            if isinstance(x0, ast.Call) and call_name(x0) == "logical_not" and x0.args:
+                inner0 = x0.args[0]
+            elif isinstance(x0, ast.UnaryOp) and isinstance(x0.op, (ast.Invert, ast.Not)):
+                inner0 = x0.operand
+            else:
+                c0 = cmp_norm(x0, False)
+                inner0 = ast.Compare(left=c0[0], ops=[{"<": ast.Lt(), "<=": ast.LtE()}[c0[1]]], comparators=[c0[2]]) if c0 and c0[1] in ("<", "<=") else None
+        for mode in (True, False):
+            menv = {lin_p: mode}
+            if not path_feasible(fl, r, menv):
+                continue
+            modes_seen.add(mode)
+            side = f"utils:{'linear' if mode else 'phasor'}"
+            inner = specialise(inner0, menv) if inner0 is not None else None
+            c = cmp_norm(inner) if inner is not None else None
+            if c is None or c[1] not in ("<=", "<"):
+                raise AnalysisError(f"infrastructure_constraints_feasible: comparison not recognised: {src(cmp_atom)}")
+            x, op, bound = c
+            bound_is_rhs = mentions_any(bound, ("constraint_limits",)) and not mentions_any(x, ("constraint_limits",))
+            ck.require(op == "<=" and bound_is_rhs, "C06.R1", f, cmp_atom, ok="currents <= limit + tolerance (non-strict)",
+                       bad=f"the comparison must be non-strict with the bound on the greater side; got `{src(inner, 80)}`", sink=f"{side}:comparison")
+            check_tolerance(ck, f, bound, side, ("constraint_limits",), (vt,), (rt,))
+            idx_ok = all(canon(s_.slice) == f"__idx__({infra}.constraint_matrix)" for s_ in ast.walk(bound) if isinstance(s_, ast.Subscript)
+                         and dotted(s_.value) and dotted(s_.value).endswith("constraint_limits"))
+            ck.require(idx_ok, "C06.R5", f, bound, ok="row j is compared with limit j", bad="the limit is not indexed by the row counter of the loop", sink=f"{side}:row-index")
+            for xa in alts_deep(x, limit=8):
+                s = sh.of(xa)
+                ck.count("shape inferences", 1)
+                ck.require(s == ("T",), "C06.R5", f, xa, ok="the compared currents keep the period axis: every period is checked separately",
+                           bad=f"the compared quantity has shape {s} instead of one value per period (T): a reduction collapses the time axis, so "
+                               f"feasibility of a multi-period schedule is not decided per period (disagrees with the network-side check)",
+                           sink=f"{side}:per-period")
+                if mode:
+                    check_linear_abs(ck, f, xa, cmp_atom, "utils")
+                else:
+                    has = {nm: any(isinstance(q, ast.Call) and call_name(q) == nm for q in ast.walk(xa)) for nm in ("cos", "sin", "norm", "deg2rad")}
+                    ck.require(has["deg2rad"], "C06.R3", f, xa, ok="phases converted with deg2rad", bad="the algorithm-side check uses the phase angles without deg2rad",
+                               sink="utils:deg2rad")
+                    for q in ast.walk(xa):
+                        if isinstance(q, ast.Call) and call_name(q) == "deg2rad":
+                            ck.require(bool(q.args) and canon(q.args[0]) == f"{infra}.phases", "C06.R3", f, q, ok="of the per-station phase vector",
+                                       bad="deg2rad is not applied to infrastructure.phases", sink="utils:deg2rad-arg")
+                    ck.require(has["cos"] and has["sin"] and has["norm"], "C06.R3", f, xa, ok="real and imaginary parts, then a norm",
+                               bad=f"the phasor magnitude needs cos, sin and a norm; present: {has}", sink="utils:cos-sin-norm")
+                    ps = products(xa)
+                    ck.require(bool(ps), "C06.R3", f, xa, ok="coefficient x schedule product", bad="no product of coefficients and schedule", sink="utils:phasor:product")
+    ck.require(modes_seen == {True, False}, "C06.R5", f, "both modes", ok="both the phase-aware and the linear mode reject on a violated constraint",
+               bad=f"modes with a rejecting path: {sorted(modes_seen)}", sink="utils:both-modes")
     for t in trues:
         loops = [x for x, lab in cfg.edges_dominating(t) if x.kind == "for" and lab is True]
         ck.require(not loops, "C06.R5", f, t.stmt, ok="True only after every row was checked", bad="`return True` inside the per-constraint loop: later constraints are never checked",
                    sink="utils:early-true")
-        conds = [x for x, lab in cfg.edges_dominating(t) if x.kind == "test" and not (dotted(x.expr) == lin_p or (isinstance(x.expr, ast.UnaryOp) and dotted(x.expr.operand) == lin_p))]
-        ck.require(not conds, "C06.R5", f, conds[0].expr if conds else t.stmt, ok="no shortcut acceptance",
-                   bad=f"the checker accepts on a shortcut condition `{src(conds[0].expr, 70) if conds else ''}` without evaluating the constraints", sink="utils:shortcut-true")
+        conds = [(x, lab) for x, lab in cfg.edges_dominating(t) if x.kind == "test"]
+        extra = []
+        for x, lab in conds:
+            v = [specialise(fl.expand(x.expr, x), {lin_p: m}) for m in (True, False)]
+            if all(isinstance(q, ast.Constant) for q in v):
+                continue             # a pure function of the mode flag
+            extra.append(x)
+        ck.require(not extra, "C06.R5", f, extra[0].expr if extra else t.stmt, ok="no shortcut acceptance",
+                   bad=f"the checker accepts on a shortcut condition `{src(extra[0].expr, 70) if extra else ''}` without evaluating the constraints", sink="utils:shortcut-true")
     return f
 
 
